@@ -22,6 +22,24 @@ CHECKS = {
    text="Order and directionality are observers of the same scan as C03; TLC checks scan = definition, that swapping the trains negates order profile and directionality, and the accumulators; terminal states are replayed into the order / directionality kernels (both backends), spike_train_order_profile, spike_directionality_values and spike_directionality.",
    note="multivariate part (indices, matrix, synfire indicator) is bound by the session engine; small scope; .pyx by transliteration"),
 }
+CHECKS.update({
+ "C07": dict(engine="A pair-scan (relations)", design_ref="5 C07",
+   technique="TLC exhaustive model checking of Relations.tla (Symmetric, Identity, InRange on the definitions) + execution of every exported case on the code under swap / self / copy",
+   text="TLC checks on the declarative definitions, for every ordered pair of trains x MRTS x RI x max_tau, that ISI / SPIKE / SPIKE-Sync are symmetric, 0 / 0 / 1 on identical trains, un-normalised self-directionality 0, and all values in range; every TLC state is then executed on the implementation (both backends): f(a,b) vs f(b,a), f(a,a), f(a,copy), range of every profile value and of distances over the whole recording and 4 sub-intervals.",
+   note="relations on the code are code-vs-code (tolerance 1e-10); scan = definition is C01-C04; small scope; .pyx by transliteration"),
+ "C08": dict(engine="A pair-scan (relations)", design_ref="5 C08",
+   technique="TLC exhaustive model checking of Relations.tla (ShiftInv, ScaleInv, MirrorSym) + execution of every exported case on the code under the same transformations",
+   text="TLC checks on the definitions that integer shifts, integer scale factors (with MRTS and max_tau scaled) and reflection about the midpoint transform only the time axis (mirror: left/right limits exchanged, order negated); every TLC state is executed on the implementation before and after each transformation (plus dyadic factors 1/2, 1/4 and a shift by 1/2) for the four bivariate profiles and five scalar functions, both backends.",
+   note="multivariate lists are covered by the session engine; code-vs-code with tolerance 1e-10; small scope"),
+ "C15": dict(engine="A pair-scan (relations) + C session", design_ref="5 C15",
+   technique="TLC exhaustive model checking of Relations.tla (ZeroIsPlain, Monotone, BelowAllIsNoOp, pooled-ISI definition) + execution of every exported case on the code",
+   text="TLC checks on the definitions that MRTS=0 is the plain measure, that ISI / SPIKE values are non-increasing and the coincidence set non-decreasing in MRTS, and that an MRTS below every ISI is a no-op; the pooled inter-spike-interval lengths and their mean square are defined in the spec and exported; the code is run for every ordered pair MRTS1 <= MRTS2, with MRTS omitted vs 0, with MRTS='auto' vs the explicit threshold, and default_thresh is compared with the root of the exported mean square, at two unit scales.",
+   note="bivariate forms here, multivariate / matrix forms in the session engine; the irrational threshold is compared as a double; small scope"),
+ "C16": dict(engine="A pair-scan (relations)", design_ref="5 C16",
+   technique="TLC exhaustive model checking of Relations.tla / SyncScan.tla (TauBounded, CoincGrowsWithTau) + execution of every exported case on all coincidence-based functions",
+   text="TLC checks that with max_tau > 0 no pair of spikes max_tau or more apart is in the coincidence set and that the set grows with max_tau (None = unbounded); every TLC state is executed on spike_sync_profile, spike_train_order_profile, spike_directionality_values and filter_by_spike_sync: each spike the code marks coincident must have a partner closer than max_tau, None / 0 / omitted must agree, and marks must persist when max_tau grows; dense and sparse grids so that spikes have neighbours on both sides.",
+   note="absolute agreement of the marks with the definition is C03/C04; small scope; two unit scales"),
+})
 NOT_YET = {}
 
 def main():
@@ -53,6 +71,7 @@ def main():
                   "source_commits": [], "add_only": True},
         "engines": [
             {"name": "A pair-scan", "path": "spec/IsiScan.tla spec/SpikeScan.tla spec/SyncScan.tla spec/SingleScan.tla harness/checkers.py", "serves_properties": ["C01", "C02", "C03", "C04"], "kind_free_text": "TLC exhaustive over all train pairs x keywords, JSON export of terminal states, replay into python backend, transliterated .pyx kernels and public API"},
+            {"name": "A pair-scan (relations)", "path": "spec/Relations.tla harness/checkers_rel.py", "serves_properties": ["C07", "C08", "C15", "C16"], "kind_free_text": "TLC checks the relation on the declarative definitions for all pairs; each state is one case executed on the code before/after the transformation"},
         ],
         "checks": checks,
         "notes": "All checks: ./check <id> --tier quick|thorough (cwd /verif). Exit 0 held, 1 violation (VIOLATION line), 2 machinery failure. See DESIGN.md.",
